@@ -12,8 +12,24 @@ caller gave: datetimes are normalised on the way in (naive UTC, whole millisecon
 inside an embedded-document `_id`.  The histories draw such ids (every spelling of two stored
 instants, hist.DATE_IDS_WIDE) next to the ids that are stored as given, so every failing write
 also meets documents filed under a normalised key.
+
+"Every kind of failure" of find_one_and_update / find_one_and_replace includes the projection:
+a projection can be refused on the DATA of the document it meets (a `$slice` of a field that
+holds no array, a `[skip, limit]` whose limit is not positive, a `$slice` argument that is no
+count and no pair), in either return mode.  The histories aim such projections (every form of
+the argument, hist.HistGen.slice_projection) at fields the documents hold; on python the
+collection measures, before the call, whether the projection is refused on the document the
+call is about to match and, after it, on which documents it is refused now (pre_probe / probe).
+A call that raised and left a trace is the known class `fam-after-projection-on-result` only
+when it asked for the document AFTER the write, its projection is acceptable in itself, was NOT
+refused on the matched document as it stood and IS refused on what the write left; anything
+else - a projection the matched document already refuses, whatever the return mode - is the
+property failing.
 """
+import copy
 import sys
+
+import mongomock
 
 import common
 import hist
@@ -26,9 +42,16 @@ RULE = ('history = 2-25 generated operations, about 40% of the writes failing (m
         'type-incompatible operator at a random position of a 1-3 operator update, _id change, '
         'duplicate key, failing batch element, unknown operator); _ids from a small pool of '
         'scalars, embedded documents and datetimes that insertion normalises (sub-millisecond, '
-        'tz-aware; bare or inside an embedded _id); every step is compared with the '
+        'tz-aware; bare or inside an embedded _id); a quarter of the find_one_and_* projections '
+        'hold $slice fields (counts, [skip, limit] pairs with a limit on either side of zero, '
+        'unsupported arguments) aimed at fields of the documents, so that they are refused or not '
+        'depending on the matched document, before or after the write, in both return modes; '
+        'every step is compared with the '
         'Lean model on outcome and full state; on python a failed single-document write must '
-        'leave documents and indexes unchanged, a failed update_many must leave the _id sequence '
+        'leave documents and indexes unchanged (for find_one_and_update / _replace the only '
+        'exception is the known class: return_document=AFTER with a projection measured as '
+        'accepted on the matched document before the call and refused on what the write left), '
+        'a failed update_many must leave the _id sequence '
         'and the indexes unchanged, and insert_many must equal one-at-a-time inserts '
         '(twin collection); non-trivial = some single-document write fails in an operator that is '
         'not the first of its update, or a batch fails in an element that is not the first; '
@@ -52,7 +75,7 @@ def histgen(rng, oids):
         find_one_and_replace=2, find_one_and_delete=2), ttl=False, date_ids='wide')
     hg.ug.malformed = 0.22
     hg.dollar_values = 0.04
-    hg.slice_proj = 0.05
+    hg.slice_proj = 0.25
     return hg
 
 
@@ -85,15 +108,30 @@ def oracle(history, steps):
         if st.out[0] == 'err' and k in FAM and cur != prev:
             # known: with return_document=AFTER the read-back (and its projection) runs after
             # the write, so a projection whose refusal DEPENDS ON THE DOCUMENT (a $slice of what
-            # the update has turned into a non-array) leaves the write behind.  A projection that
-            # is refused in itself is refused before the write since library commit 7781c66 (the
-            # repaired finding `fam-after-projection-error`): that case is no known class.
+            # the update has turned into a non-array) leaves the write behind.  The class is
+            # exactly that: the projection is acceptable in itself (a projection refused whatever
+            # the document is refused before the write since library commit 7781c66, the repaired
+            # finding `fam-after-projection-error`), the matched document as it stood did NOT
+            # make it fail (measured on the real code before the call; no document matched on
+            # the upsert path), and a document the call changed or created DOES (measured after
+            # it).  A projection that the matched document already refuses must stop the call
+            # before the write, in either return mode: that is the property, not the known class.
             after = k != 'find_one_and_delete' and bool(st.op[6])
             proj = st.op[3] if k != 'find_one_and_delete' else st.op[2]
+            pre = (st.extra or {}).get('pre') or {}
+            post = (st.extra or {}).get('probe') or {}
+            on_result = refused_on_result(prev, cur, post.get('refused_now'))
             lab = 'fam-after-projection-on-result' if (
-                after and proj is not None and acceptable_in_itself(proj)) else 'trace'
-            fails.append((i, lab, 'failed %s (%s) changed the collection: %r -> %r'
-                          % (k, st.out[1], prev, cur)))
+                after and proj is not None and acceptable_in_itself(proj) and
+                pre.get('refused_before') is False and on_result) else 'trace'
+            why = ''
+            if proj is not None:
+                why = ' [projection %r: refused on the matched document before the call: %r; ' \
+                      'refused on a document the call left changed: %r; return_document=%s]' % (
+                          proj, pre.get('refused_before'), on_result,
+                          'AFTER' if after else 'BEFORE')
+            fails.append((i, lab, 'failed %s (%s) changed the collection: %r -> %r%s'
+                          % (k, st.out[1], prev, cur, why)))
         if st.out[0] == 'err' and k in ('find', 'count', 'distinct', 'delete_many') and cur != prev:
             fails.append((i, 'trace', 'failed %s changed the collection' % k))
         if st.out[0] == 'err' and k == 'update_many' and ids_state(cur) != ids_state(prev):
@@ -115,15 +153,70 @@ def oracle(history, steps):
 def acceptable_in_itself(proj):
     """the projection is not refused whatever the document: applied to an empty document (through
     find_one on a scratch collection) it does not raise"""
-    import copy
-    import mongomock
+    return refused_on({}, proj) is False
+
+
+def refused_on(doc, proj):
+    """the real code refuses the projection on this document's data: find_one through it on a
+    scratch collection that holds (a copy of) the document alone raises.  None: the scratch
+    collection would not take the document (nothing measured)"""
     c = mongomock.MongoClient().db.scratch
-    c.insert_one({})
+    try:
+        c.insert_one(copy.deepcopy(doc))
+    except Exception:  # pylint: disable=broad-except
+        return None
     try:
         c.find_one({}, copy.deepcopy(proj))
-        return True
-    except Exception:  # pylint: disable=broad-except
         return False
+    except Exception:  # pylint: disable=broad-except
+        return True
+
+
+def fam_projection(op):
+    if op[0] in ('find_one_and_update', 'find_one_and_replace'):
+        return op[3]
+    return None
+
+
+def pre_probe(runner, op):
+    """before a find_one_and_update / _replace with a projection: is that projection refused on
+    the document the call is about to match (the first match of the filter under the sort, on
+    the full documents)?  False when nothing matches (the upsert path)"""
+    proj = fam_projection(op)
+    if proj is None:
+        return None
+    kw = {}
+    if op[4] is not None:
+        kw['sort'] = [tuple(x) for x in op[4]]
+    try:
+        target = runner.coll.find_one(copy.deepcopy(op[1]), **kw)
+    except Exception as e:  # pylint: disable=broad-except
+        return {'error': type(e).__name__}
+    return {'matched': target is not None,
+            'refused_before': refused_on(target, proj) if target is not None else False}
+
+
+def probe(runner, op):
+    """after such a call: on which documents of the collection (in the order of the observation)
+    the projection is refused now"""
+    proj = fam_projection(op)
+    if proj is None:
+        return None
+    try:
+        docs = list(runner.coll.find({}))
+    except Exception as e:  # pylint: disable=broad-except
+        return {'error': type(e).__name__}
+    return {'refused_now': [refused_on(d, proj) for d in docs]}
+
+
+def refused_on_result(prev, cur, refused_now):
+    """some document that the call changed or created (present now, not before) makes the
+    projection fail now"""
+    if not refused_now or not isinstance(cur, tuple) or not isinstance(cur[0], tuple) or \
+            len(refused_now) != len(cur[0]):
+        return False
+    before = prev[0] if isinstance(prev, tuple) and isinstance(prev[0], tuple) else ()
+    return any(r is True for d, r in zip(cur[0], refused_now) if d not in before)
 
 
 def ids_state(state):
